@@ -7,20 +7,48 @@ import textwrap
 
 
 def wrapper_kwargs():
-    """keyword arguments (constants only) of the textwrap.TextWrapper(...) call MontePy's wrapping code makes"""
-    from montepy.mcnp_object import MCNP_Object
+    """the configuration of every textwrap.TextWrapper that MontePy's wrapping code builds, OBSERVED by running
+    wrap_string_for_mcnp on over-long probe inputs with a recording subclass in place of textwrap.TextWrapper
+    (since round 7; the first version read the keyword arguments of the call from the AST of two named methods
+    and raised a no-failing-input-found alarm when a behaviour-preserving rewrite moved the call into a helper)."""
+    import warnings
 
+    import montepy.mcnp_object as mo
+
+    seen = []
+    orig = textwrap.TextWrapper
+
+    class Recording(orig):
+        def __init__(self, *a, **k):
+            super().__init__(*a, **k)
+            seen.append(self)
+
+    textwrap.TextWrapper = Recording
+    had = getattr(mo, "textwrap", None)
+    try:
+        if had is not None and getattr(had, "TextWrapper", None) is not Recording:
+            had.TextWrapper = Recording
+        with warnings.catch_warnings():
+            warnings.simplefilter("ignore")
+            for version in ((6, 2, 0), (6, 1, 0)):
+                for probe in ("imp:n " + "1 " * 120, "1 0 -1 $ " + "comment words " * 20, "c " + "a comment line " * 20,
+                              "m1 " + "1001.80c 0.5 " * 30 + "\n     " + "8016.80c 0.25 " * 30):
+                    for first in (True, False):
+                        try:
+                            mo.MCNP_Object.wrap_string_for_mcnp(probe, version, first)
+                        except Exception:
+                            pass
+    finally:
+        textwrap.TextWrapper = orig
     out = {}
-    for name in ("_wrap_line", "wrap_string_for_mcnp"):
-        fn = getattr(MCNP_Object, name, None)
-        if fn is None:
-            continue
-        tree = ast.parse(textwrap.dedent(inspect.getsource(fn)))
-        for node in ast.walk(tree):
-            if isinstance(node, ast.Call) and getattr(node.func, "attr", getattr(node.func, "id", "")) == "TextWrapper":
-                for kw in node.keywords:
-                    if isinstance(kw.value, ast.Constant):
-                        out[kw.arg] = kw.value.value
+    for arg in ("drop_whitespace", "break_on_hyphens", "break_long_words", "expand_tabs", "replace_whitespace"):
+        vals = {getattr(w, arg) for w in seen}
+        if len(vals) == 1:
+            out[arg] = vals.pop()
+        elif len(vals) > 1:
+            # wrappers that disagree: report the value the model does NOT assume, so that the proof re-opens
+            out[arg] = {"drop_whitespace": True, "break_on_hyphens": True, "break_long_words": False,
+                        "expand_tabs": False, "replace_whitespace": False}[arg]
     return out
 
 
